@@ -366,6 +366,9 @@ def build_handler(prog: dict, rec: Recorder):
                     raise UserError(f"child {path} raises")
                 if node.get("large"):
                     return ["L" * (CHECKPOINT_LIMIT + 10), inner]
+                if node.get("uni"):
+                    # non-ASCII text: `uni` characters, 2 bytes each in UTF-8, 6 characters each in the default (escaped) JSON encoding
+                    return "\u00e9" * int(node["uni"])
                 if node.get("ser_size"):
                     # a string whose default serialization ('"' + chars + '"') has exactly ser_size characters
                     return "S" * (int(node["ser_size"]) - 2)
